@@ -604,3 +604,33 @@ func C10_CopyNest() {
 	}
 	vf.Reach("copynest")
 }
+
+// C10_EqSelf: the same laws when both operands are the SAME object (an alias,
+// the same argument passed twice, a shared element fetched from two
+// containers), for every runtime type incl. the values whose equality is not
+// reflexive (NaN, containers holding NaN, functions): != is the negation of
+// ==, and comparing an object with itself gives what comparing it with an
+// equal-valued distinct object gives (copy for containers).
+func C10_EqSelf() {
+	a, _ := AnyObj("a", 1)
+	srcs := []string{
+		`x := a; eq := x == a; ne := x != a; qe := a == x`,
+		`f := func(p, q) { return [p == q, p != q, q == p] }; r := f(a, a); eq := r[0]; ne := r[1]; qe := r[2]`,
+		`s := [a]; t := {k: s[0]}; eq := s[0] == t.k; ne := s[0] != t.k; qe := t.k == s[0]`,
+		`g := func() { return 1 }; h := g; w := [a, g]; eq := w == w; ne := w != w; qe := h == g && !(h != g) || !(h == g) && h != g`,
+	}
+	k := vf.Choice("form", len(srcs))
+	s := tengo.NewScript([]byte(srcs[k]))
+	_ = s.Add("a", a)
+	c, err := s.Compile()
+	vf.Assert(err == nil, "compiles")
+	vf.Assert(c.Run() == nil, "runs")
+	eq, ne, qe := c.Get("eq").Bool(), c.Get("ne").Bool(), c.Get("qe").Bool()
+	vf.Assert(vf.Iff(eq, vf.Not(ne)), "!= is the negation of == when both operands are the same object")
+	if k < 3 {
+		vf.Assert(vf.Iff(eq, qe), "== symmetric when both operands are the same object")
+	} else {
+		vf.Assert(qe, "for a function value, != is the negation of ==")
+	}
+	vf.Reach("eqself")
+}
